@@ -16,7 +16,7 @@ from trie.exceptions import InvalidKeyError
 
 from ..ref.bintrie import MALFORMED, MISSING, RefBin, bits_of, resolve
 from ..util import Info, Raised, expect, expect_eq, impl
-from .c12 import _conflicts, resolve_arg, strategy as c12_history
+from .c12 import _conflicts, resolve_arg, resolve_bin_val, strategy as c12_history
 
 ID = "C13"
 LEVEL = "exploration"
@@ -87,6 +87,7 @@ def _play(t, model, hist):
 
     for kind, kspec, val, syn in hist:
         k = resolve_arg(kspec, model)
+        val = resolve_bin_val(val, t.db)
         new = dict(model)
         if kind == "set":
             if _conflicts(k, model):
@@ -217,6 +218,10 @@ def run_case(case):
                         # the answer the trie gives must not be validated by a *wrong* claim only
                         pass
         # ---- witness ----------------------------------------------------------------------
+        # the same request against a partial database first (a light client that holds only
+        # the root node): whatever it returns must not influence the answer for the full db
+        impl("get_witness_for_key_prefix", get_witness_for_key_prefix, {root: db[root]}, root, k,
+             allowed=(InvalidKeyError, KeyError))
         w = impl("get_witness_for_key_prefix", get_witness_for_key_prefix, db, root, k,
                  allowed=(InvalidKeyError,))
         extends_stored = any(k != s and k.startswith(s) for s in model)
